@@ -67,7 +67,7 @@ CLAIMED = {
          "Carry sentences of the templates ('enter here and on Form 1040, line 8', 'also include this amount on ... line 4b'; 11 per year) are "
          "obligations too: the destination line statically reads the source line, through intermediate lines and for every copy of a "
          "per-person form (reflective reachability over the regenerated reference graph). The N.C. templates have no accessibility text: their "
-         "printed captions are decoded from the page content streams (tools/pdf_text.py, tools/nc_text.py) and give 12 more line lemmas per year "
+         "printed captions are decoded from the page content streams (tools/pdf_text.py, tools/nc_text.py) and give about 17 more line lemmas per year "
          "(Add Lines 6 and 7; Multiply Line 14 by 4.75% (0.0475), if zero or less enter a zero; ...) and the carries between Schedule S / A and D-400 "
          "('(From Form D-400 Schedule S, Part A, Line 16)': both ends equal on real returns; a source line the solve never evaluated is "
          "evaluated by its shipped definition on the return's own values and answers).",
@@ -179,6 +179,9 @@ CLAIMED = {
          "the independent oracle table (oracles/statutory.json: 40 items x statuses x years, each with its citation), the "
          "shipped line that shows the amount, evaluated by the interpreter of the regenerated deep embedding on a minimal store, yields the "
          "published amount (or switches outcome exactly at it). Exhaustive over the finite triple set, decided by vm_compute in the kernel; "
+         "the amounts PRINTED in the bundled templates (page text and accessibility text: standard deductions, CTC phase-out starts, SALT cap, "
+         "Medicare thresholds, HSA limits, QBI limits, Schedule B thresholds, credit amounts, N.C. rate and standard deductions; about 60 per year) "
+         "are compared with the same table, so that code, table and template agree pairwise; "
          "works uniformly for 2023 threshold tables and the 2021/2022 inline if/elif chains because both live in the translated lines. "
          "Every probe is also replayed on the real line (Field.value). Tie: translator validation on real returns.",
     design_ref='DESIGN.md §4 C08',
